@@ -624,6 +624,12 @@ theorem good_createTable (s : Pkg) (hsep : TablesSeparate s) (name : List Char) 
   | some k => exact .refl s
   | none =>
     simp only
+    cases hroom : catalogRoom s name cols with
+    | err k => exact .refl s
+    | panic w => exact .refl s
+    | ok u =>
+    cases u
+    simp only
     obtain ⟨hv, hp⟩ := createError_name s name cols hce
     have g1 := good_insertRows s hsep Gen.nameColumns.toList (catalogRowsColumns name cols)
     generalize hr1 : insertRows s Gen.nameColumns.toList (catalogRowsColumns name cols) = r1 at g1
